@@ -168,7 +168,7 @@ Print Assumptions normalisation_preserves_meaning.
     every recorded sub-request. *)
 Theorem subquery_closed :
   forall g pick fuel flat p,
-    fed_ok g = true -> (forall l s, pick l = Some s -> In s l) ->
+    fed_ok g = true -> plain_ok g = true -> (forall l s, pick l = Some s -> In s l) ->
     forallb not_fed flat = true ->
     plan_root g pick fuel flat = Some p -> forallb (plan_closed g) (p_after p) = true.
 Proof. exact PlannerProofs.subquery_closed. Qed.
